@@ -313,6 +313,7 @@ class C26(Check):
         contract_a = _inv12(st)           # (a) is claimed while the contract of C26_one_owner holds
         exp_rd = [c[2] if c else None for c in cs0]
         pure_tx = kind == "tx" and _J(st) and _owner_owned(st)   # a history of accesses from a legitimate state
+        pending = None
         for k, (op, (ret, own1, cs1)) in enumerate(zip(ops, snaps)):
             f = op.split(".")
             kd = f[0]
@@ -395,10 +396,11 @@ class C26(Check):
                         if _owner_owned(st):
                             return ("op %d %s: target is stale (%s) but no transfer was requested" % (k, op, st[1]),
                                     "b-missed", k)
-                        if pure_tx:
+                        if pure_tx and pending is None:
                             # full-strength clause on a genuine history of accesses: the owner's own
                             # read-only access demoted its OWNED copy, stale SHARED copies go unnoticed
-                            return ("op %d %s: target copy %d is SHARED with version %d, copy %d holds version %d, "
+                            # (kept pending: a different violation later in the same case is reported first)
+                            pending = ("op %d %s: target copy %d is SHARED with version %d, copy %d holds version %d, "
                                     "no transfer requested (owner's copy was demoted to SHARED by its own read)"
                                     % (k, op, d, st[1][d][1], st[0], st[1][st[0]][1]), "b-stale-after-owner-read", k)
                 # completed write access of a history of accesses: new version above every valid one
@@ -416,7 +418,7 @@ class C26(Check):
             if kd not in "AaG":
                 pure_tx = False
             st = post
-        return None
+        return pending
 
     def oracle(self, case, obs):
         a = self._analyze(case, obs)
